@@ -22,18 +22,29 @@ void c_signal(void *priv, int sig) { ((Sink *)priv)->on_signal(sig); }
 
 struct CTerm
 {
-    Exact line, hist; // exactly cap and cap*H bytes: the first byte outside is an ASan fault
+    std::unique_ptr<Exact> linep, histp; // exactly cap and cap*H bytes: the first byte outside is an ASan fault
     vterm_automate vt;
 
-    CTerm(unsigned cap, unsigned H, Sink *sink) : line(cap), hist((size_t)cap * H)
+    CTerm(unsigned cap, unsigned H, Sink *sink)
     {
         memset(&vt, 0xA5, sizeof vt);
-        memset(line.p, 0xEE, cap);
-        vterm_automate_init(&vt, line.c(), cap, hist.c(), H);
+        reinit(cap, H, sink);
+    }
+    // vterm_automate_init on the same object (first use, or a new session over new buffers)
+    void reinit(unsigned cap, unsigned H, Sink *sink)
+    {
+        // the previous session's buffers stay allocated until the new ones are in place: a stale pointer into them is a
+        // wrong answer, not a use-after-free report about the harness
+        std::unique_ptr<Exact> l2(new Exact(cap)), h2(new Exact((size_t)cap * H));
+        memset(l2->p, 0xEE, cap);
+        vterm_automate_init(&vt, l2->c(), cap, h2->c(), H);
         vterm_set_write_callback(&vt, c_write, sink);
         vterm_set_execute_callback(&vt, c_exec, sink);
         vterm_set_signal_callback(&vt, c_signal, sink);
+        linep = std::move(l2);
+        histp = std::move(h2);
     }
+    void set_echo(bool on) { vt.echo = on ? 1 : 0; }
     void feed(int16_t ch) { vterm_automate_newdata(&vt, ch); }
     long size() { return sline_size(&vt.rl.line); }
     long cursor() { return (long)sline_size(&vt.rl.line) - (long)sline_rightsize(&vt.rl.line); }
@@ -44,13 +55,15 @@ struct CTerm
     }
     void extra_check(const RefEditor &, EvKind, const char *)
     {
-        VP_CHECK(vt.rl.line.buf == line.c() && vt.rl.history_space == hist.c(), "buffers_moved", "the terminal no longer uses the buffers it was given");
+        VP_CHECK(vt.rl.line.buf == linep->c() && vt.rl.history_space == histp->c(), "buffers_moved", "the terminal no longer uses the buffers it was given");
     }
 };
 
 void t_vterm_c(Src &s, Case &c) { run_terminal<CTerm>(s, c, 0, "vterm_c"); }
 void t_vterm_c_enum(Src &s, Case &c) { run_terminal<CTerm>(s, c, 1, "vterm_c"); }
 void t_vterm_c_long(Src &s, Case &c) { run_terminal<CTerm>(s, c, 2, "vterm_c"); }
+void t_vterm_c_reinit(Src &s, Case &c) { run_terminal<CTerm>(s, c, 3, "vterm_c"); }
+void t_vterm_c_silent(Src &s, Case &c) { run_terminal<CTerm>(s, c, 4, "vterm_c"); }
 
 // =========================================================================
 // sline: struct sline (exact heap buffer) and igris::sline in lock step with a string
@@ -271,6 +284,13 @@ VP_TARGET("vterm_c", t_vterm_c,
 VP_TARGET("vterm_c_long", t_vterm_c_long,
           "vterm.c with line capacity 250..262, history depth 1..3: 0..2 short lines, then one run of capacity-8..capacity+1 equal characters (cursor and length "
           "pass 255, the line fills up), then <= 10 random keys (arrows, recalls, BS, DEL, CR, ...); same checks after every byte; non-trivial as for vterm_c");
+VP_TARGET("vterm_c_reinit", t_vterm_c_reinit,
+          "struct vterm_automate used for a first session (capacity 2..24, history depth 1..8, up to 10 lines entered, possibly ending inside a line, a recall or an escape "
+          "sequence), then vterm_automate_init() again over new exactly-sized buffers with another capacity and depth, then up to 40 random keys with all checks of vterm_c "
+          "against a fresh reference editor");
+VP_TARGET("vterm_c_silent", t_vterm_c_silent,
+          "struct vterm_automate with echo switched off: generator of vterm_c; line, cursor, history recall and callbacks as the reference editor, and not one byte written to the "
+          "terminal");
 VP_TARGET("vterm_c_enum", t_vterm_c_enum,
           "exhaustive (vterm.c): every sequence of <= 5 (quick) / <= 7 (thorough) keys over {a,b,BS,LEFT,RIGHT,DEL,UP,DOWN,CR,LF,^C,ESC-x} x capacity {2,3,4,8} x history depth {1,2}",
           term_enum_size);
